@@ -6,12 +6,22 @@ import json, sys
 HINTS = {}
 pid = sys.argv[1]
 variant = sys.argv[2] if len(sys.argv) > 2 else ""
+import os, glob
+tried = []
+for d in sorted(glob.glob('/verif/seeded/%s*' % pid)):
+    try:
+        tried.append(json.load(open(d + '/meta.json'))['summary'])
+    except Exception:
+        pass
 rec = None
 for l in open('/verif/properties.jsonl'):
     r = json.loads(l)
     if r['id'] == pid:
         rec = r
 name = pid + variant
+VARIANT = ""
+if variant and tried:
+    VARIANT = "- Other testers ALREADY produced the change(s) summarised below for this property. Produce a DIFFERENT one: another mechanism / another function / another clause of the statement (do not re-use the same idea on a sibling line):\n" + "\n".join("    * " + t[:600] for t in tried) + "\n"
 print(f"""You are helping to evaluate a verification effort on InfluxDB 2.x (Go). Your job: produce ONE realistic code change ("seeded defect") to the InfluxDB source that BREAKS the semantic property below, while the code still compiles and the existing tests still pass — plus a demonstration that fails with your change and passes without it.
 
 You work ONLY inside your own scratch git worktree: /tmp/wt/{name} (a checkout of the repository). Do NOT look at or touch /repo, /verif, or other directories under /tmp/wt; do not read anything under /verif or /root/.vp. Write your deliverables to /tmp/seedout/{name}/.
@@ -34,7 +44,7 @@ Code anchors (where the mechanism lives): {json.dumps(rec['anchors'], indent=1)}
 - It must need something SPECIFIC to manifest: a particular interleaving, a crash/fault at a particular point, a multi-step sequence of operations, an unusual input, or two cooperating sites that each look fine alone — NOT something ordinary use or the existing tests expose at once.
 - The tree must still compile (`go build ./...` for the packages you touch and their dependants, `go vet` not required) and the existing tests of the packages you touched must still pass, as must the repository's pinned baseline (which only covers libflux-free packages such as models, toml, kit/*, pkg/*, tsdb/cursors, cmd/influxd/run).
 - Read the real code first and make sure your change truly violates the property statement (not merely some internal detail) for some input / schedule / crash point / history.
-{('- Variant hint: ' + HINTS.get(variant, '')) if variant else ''}
+{VARIANT}
 ## Environment (sealed sandbox, no network)
 
 Every shell call needs: `export GOFLAGS=-mod=mod GOPROXY=off PKG_CONFIG_PATH=/tmp/stubflux` (env does not persist between calls). Do NOT set GOSUMDB or GOTOOLCHAIN. The default `go` works inside the worktree. Most packages link the C library libflux, which does not exist here; /tmp/stubflux holds a STUB that lets them link, so `go test ./tsdb/engine/tsm1/` etc. work (tsm1 ≈ 25 s, tsdb ≈ 50 s). Test binaries that import the Flux standard library panic at init with the stub (known: ./http, ./kv, ./tenant, ./authorizer and a few others): for code in such packages write the demonstration so that it avoids those imports (e.g. an external `_test` package or a tiny `main` program that only imports what it needs), or demonstrate at a lower layer. Use `-count=1 -vet=off`. Keep builds to the packages you need; do not run `go test ./...` for the whole repository. The machine is shared with other jobs: use `-p 4` for go test/build.
@@ -45,4 +55,4 @@ Every shell call needs: `export GOFLAGS=-mod=mod GOPROXY=off PKG_CONFIG_PATH=/tm
 2. The demonstration: a new `*_test.go` file (or small program) — keep a copy in /tmp/seedout/{name}/ with a note of the path it must be placed at in the tree. It must FAIL (or exit non-zero) with patch.diff applied and PASS without it, deterministically (if it needs an interleaving, force it with hooks available in the code, channels, or repetition that makes it reliable; a crash can be simulated by copying files / reopening / truncating).
 3. `meta.json`: {{"property": "{pid}", "summary": "...one paragraph: what was changed and why it breaks the property...", "needs_to_manifest": "...the specific interleaving / crash point / sequence / input...", "files_changed": [...], "demo_path_in_tree": "...", "demo_cmd": "...exact command to run the demo from the worktree root...", "existing_tests_cmd": "...what you ran to confirm existing tests still pass...", "results": {{"demo_with_patch": "FAIL ...", "demo_without_patch": "PASS ...", "existing_tests_with_patch": "PASS ..."}}}}
 
-Verify all three results yourself before finishing (run the demo with the patch, then revert ONLY the non-test change with `git diff -- <files> > /tmp/seedout/<name>/p.diff; git apply -R /tmp/seedout/<name>/p.diff`, run it again, then `git apply` it back — NEVER use `git stash` (the stash is shared by all worktrees of the repository and other agents are working concurrently)). Leave the worktree with your change AND the demo applied at the end. Your final message should be a 5-line summary: what you changed, what it needs to manifest, and the verified results. If after honest effort you cannot find a change that satisfies everything, say so plainly and explain what you tried.""".replace("HINTS.get(variant, '')", ""))
+Verify all three results yourself before finishing (run the demo with the patch, then revert ONLY the non-test change with `git diff -- <files> > /tmp/seedout/<name>/p.diff; git apply -R /tmp/seedout/<name>/p.diff`, run it again, then `git apply` it back — NEVER use `git stash` (the stash is shared by all worktrees of the repository and other agents are working concurrently)). Leave the worktree with your change AND the demo applied at the end. Your final message should be a 5-line summary: what you changed, what it needs to manifest, and the verified results. If after honest effort you cannot find a change that satisfies everything, say so plainly and explain what you tried.""")
